@@ -27,7 +27,10 @@ RULE = (
     "cases are generated from one SplitMix64 state: well-formed messages of 500–1500 octets (all sections, shared and "
     "case-differing owner suffixes, names inside RDATA, EDNS options, TSIG with compressible and non-compressible key names), "
     "each rendered at EVERY size limit from 505 to len+2 with and without prefer_truncation, at every pad block size in "
-    "{1..64,128,468} (with and without TSIG, at a generous and at a tight limit), and through step-by-step Renderer traces "
+    "{1..64,128,468} (with and without TSIG, at a generous and at a tight limit), at explicit max_size values far from the message "
+    "size — {0, 65534, 65535, 65536, 70000, 100000, 2**31} on messages of 65000..72000 octets (a few hundred opaque records, OPT/TSIG or not) "
+    "and {0, 1, 12, 511, 512, 513, 65535, 65536} with request_payload in {0, 100, 512, 530, 1232, 70000} on messages around 512 octets, both "
+    "modes, with and without prepend_length —, and through step-by-step Renderer traces "
     "that keep adding after a TooBig; a case is non-trivial if its key (kind + content) is new"
 )
 TRUSTED_BASE = C03.TRUSTED_BASE
@@ -508,12 +511,18 @@ def gen_large(rng, target, want_opt, want_tsig):
 def generate(ctx: Ctx, scale: int, rng):
     n = lambda q: max(1, q * scale)
     # explicit limits far from the message size: around and above 64 KiB on large messages, around 512 and below on small ones
-    targets = [65535, 65536] if scale == 1 else [65000, 65533, 65534, 65535, 65536, 65537, 66000, 70000, 72000] * max(1, scale // 10)
-    for j, t in enumerate(targets):
-        c = gen_large(rng, t, want_opt=rng.chance(1, 2) if scale > 1 else j == 0, want_tsig=rng.chance(1, 2) if scale > 1 else j == 1)
+    if scale == 1:
+        # quick: one message just over 64 KiB at three limits (the model takes ~0.8 s per rendering; max_size=0 on large messages is in the thorough tier)
+        plan = [(65536 + rng.below(3), rng.chance(1, 2), rng.chance(1, 2), [65535, 65536, 2 ** 31])]
+    else:
+        plan = [(t, rng.chance(1, 2), rng.chance(1, 2), BIG_LIMITS)
+                for t in [65000, 65533, 65534, 65535, 65536, 65537, 66000, 70000, 72000] * max(1, scale // 30)]
+    for t, wo, wt, lims in plan:
+        c = gen_large(rng, t, want_opt=wo, want_tsig=wt)
         if c is None:
             ctx.count("gen.rejected")
             continue
+        c["limits"] = lims
         run_one(ctx, c)
     for i in range(n(6)):
         c = gen_sized(rng, rng.choice([40, 300, 505, 511, 512, 513, 520, 560]), want_opt=rng.chance(1, 2), want_tsig=rng.chance(1, 3))
@@ -594,7 +603,7 @@ LEVEL = {
             "that result parses to that prefix, padding option and TSIG included (class of C03.parse_render_partial: absolute names, not an "
             "UPDATE); padding_multiple — with padding the length, TSIG included, is a multiple of the block for every "
             "message, limit and mode (the TSIG is rendered against a fresh compression table, so its reserve is exact: repaired D07); "
-            "reserve_too_big — OPT+TSIG reserves beyond the limit give TooBig. Tied to the code by correspondence at every limit from 505 to len+2, every pad block in {1..64,128,468} and "
+            "reserve_too_big — OPT+TSIG reserves beyond the limit give TooBig. Tied to the code by correspondence at every limit from 505 to len+2, at limits on both sides of the [512, 65535] clamp on small and on 64-KiB messages, every pad block in {1..64,128,468} and "
             "step-by-step Renderer traces.",
     "note": "Trusted: Lean kernel + propext/Classical.choice/Quot.sound; the statements in lean/Props/C08.lean; the correspondence "
             "harness and its generators; harness/extract_C03.py. The TSIG MAC is abstract and fixed-size. Tie-only: result_parses for "
